@@ -399,3 +399,25 @@ V("C10-x-mask-nonzero-rows", "C10", "C10.7", (ITY, "            self.staggered_m
 
 V("C15-u-dxn-only-on-accept", "C15", "C15.5", (OPT, "                dx = __dx\n                F1 = __f", "                dx = __dx\n                dxn = D.ar_numpy.linalg.norm(dx).reshape(tuple())\n                F1 = __f"), (OPT, "                break\n        dxn = D.ar_numpy.linalg.norm(dx).reshape(tuple())\n", "                break\n"))
 V("C15-v-dxn-extra-def-silent", "C15", "silent", (OPT, "                dx = __dx\n                F1 = __f", "                dx = __dx\n                dxn = D.ar_numpy.linalg.norm(dx).reshape(tuple())\n                F1 = __f"))
+V("C02-u-splitting-clock-first", "C02", "C02.5", (ITY, "            current_time = current_time + timestep * self.tableau_intermediate[stage, 1]\n            self.dState += aux", "            self.dState += aux"), (ITY, "        for stage in range(D.ar_numpy.shape(self.tableau_intermediate)[0]):\n            if stage == 0:", "        for stage in range(D.ar_numpy.shape(self.tableau_intermediate)[0]):\n            current_time = current_time + timestep * self.tableau_intermediate[stage, 1]\n            if stage == 0:"))
+V("C02-v-splitting-clock-kick-col", "C02", "C02.5", (ITY, "            current_time = current_time + timestep * self.tableau_intermediate[stage, 1]\n", "            current_time = current_time + timestep * self.tableau_intermediate[stage, 2]\n"))
+V("C04-u-proposal-always", "C04", "C04.4", (DS, "                    is_final_step = True\n", ""), (DS, "                    is_final_step = False\n", ""), (DS, "                if not is_final_step:\n                    self.dt = new_dt\n", "                self.dt = new_dt\n"))
+V("C05-s-final-time-is-tf", "C05", "C05.6", (DS, "                self.__t[self.counter + 1] = self.__t[self.counter] + dTime\n", "                self.__t[self.counter + 1] = tf if is_final_step else self.__t[self.counter] + dTime\n"))
+V("C05-t-record-requested-step", "C05", "C05.6", (DS, "                self.__t[self.counter + 1] = self.__t[self.counter] + dTime\n", "                self.__t[self.counter + 1] = self.__t[self.counter] + dt\n"))
+V("C06-s-remove-one-piece", "C06", "C06.5", (DS, "                            for _ in range(len(self.__sol) - __pre_length):\n                                self.__sol.remove_interpolant(-1 if dTime >= 0 else 0)\n", "                            self.__sol.remove_interpolant(-1 if dTime >= 0 else 0)\n"))
+V("C09-v-remove-one-piece", "C09", "C09.3", (DS, "                            for _ in range(len(self.__sol) - __pre_length):\n                                self.__sol.remove_interpolant(-1 if dTime >= 0 else 0)\n", "                            self.__sol.remove_interpolant(-1 if dTime >= 0 else 0)\n"))
+V("C08-v-truncate-before-sort", "C08", "C08.8", (DS, "        order = D.ar_numpy.argsort(D.ar_numpy.sign(t_next - t_prev) * roots)\n        active_events = active_events[order]\n        roots = roots[order]\n        evs = [evs[idx] for idx in order]\n\n", ""), (DS, "            terminate = True\n\n    return active_events", "            terminate = True\n\n        order = D.ar_numpy.argsort(D.ar_numpy.sign(t_next - t_prev) * roots)\n        active_events = active_events[order]\n        roots = roots[order]\n        evs = [evs[idx] for idx in order]\n\n    return active_events"))
+V("C03-r-at-target-allclose", "C03", "C03.8", (DS, "        if D.ar_numpy.abs(tf - self.__t[self.counter]) < D.epsilon(self.__y[self.counter].dtype):\n            return", "        if D.ar_numpy.allclose(self.__t[self.counter], tf):\n            return"))
+V("C03-s-at-target-loose", "C03", "C03.8", (DS, "        if D.ar_numpy.abs(tf - self.__t[self.counter]) < D.epsilon(self.__y[self.counter].dtype):\n            return", "        if D.ar_numpy.abs(tf - self.__t[self.counter]) < 1e-8:\n            return"))
+TPL = "desolver/integrators/integrator_template.py"
+V("C05-u-nan-guard-removed", "C05", "C05.7", (TPL, "            if epsilon_last is None:\n                corr = D.ar_numpy.where(epsilon_current > 0.0, epsilon_current ** (1.0 / order), 1.0)", "            if epsilon_last is None:\n                corr = epsilon_current ** (1.0 / order)"))
+V("C12-u-nan-guard-removed", "C12", "C12.8", (TPL, "            if epsilon_last is None:\n                corr = D.ar_numpy.where(epsilon_current > 0.0, epsilon_current ** (1.0 / order), 1.0)", "            if epsilon_last is None:\n                corr = epsilon_current ** (1.0 / order)"))
+V("C05-v-nan-negated-compare-silent", "C05", "silent", (TPL, "            return timestep, bool(corr < 0.9**2)", "            return timestep, not bool(corr >= 0.9**2)"))
+V("C13-s-rtol-inplace", "C13", "C13.5", (DS, "        self.__rtol = D.ar_numpy.asarray(new_rtol, **self.__array_con_kwargs)\n        self.initialise_integrator()", "        self.__rtol = D.ar_numpy.asarray(new_rtol, **self.__array_con_kwargs)\n        self.integrator.rtol = self.__rtol"))
+V("C14-p-tol-floor-fixed-type", "C14", "C14.8", (OPT, "    if tol < D.epsilon(lower_bound.dtype):\n        tol = D.epsilon(lower_bound.dtype)\n    tol = D.ar_numpy.asarray(tol, like=lower_bound)\n    a, b = D.ar_numpy.asarray(lower_bound), D.ar_numpy.asarray(upper_bound)", "    if tol < D.epsilon(numpy.float64):\n        tol = D.epsilon(numpy.float64)\n    tol = D.ar_numpy.asarray(tol, like=lower_bound)\n    a, b = D.ar_numpy.asarray(lower_bound), D.ar_numpy.asarray(upper_bound)"))
+V("C16-v-estimate-caches", "C16", "C16.7", (UTL, "        dy_val = self.rhs(y, *args, **kwargs)\n        unravelled_dy", "        dy_val = self.rhs(y, *args, **kwargs)\n        self._last_dy = dy_val\n        unravelled_dy"))
+V("C19-u-negative-index-shift", "C19", "C19.1b", (DS, "        if isinstance(index, int):\n            if index > self.counter:", "        if isinstance(index, int):\n            if index < 0:\n                index += self.counter + 1\n            if index > self.counter:"))
+V("C19-v-negative-index-shift-checked-silent", "C19", "silent", (DS, "        if isinstance(index, int):\n            if index > self.counter:", "        if isinstance(index, int):\n            if index < 0:\n                index += self.counter + 1\n                if index < 0:\n                    raise IndexError(\"index out of bounds\")\n            if index > self.counter:"))
+V("C20-s-callback-list-aliased", "C20", "C20.3", (DS, "        elif isinstance(callback, (tuple,list)):\n            callback = list(callback)\n        else:\n            callback = [callback]", "        elif not isinstance(callback, (tuple, list)):\n            callback = [callback]"))
+
+V("C11-s-last-row-propagation", "C11", "C11.4", (ITY, "        else:\n            self.dState = timestep * D.ar_numpy.sum(self.stage_values * self.tableau_final[0, 1:], axis=-1)\n            self.final_rhs", "        elif self.is_implicit and self.tableau_intermediate[-1, 0] == 1.0:\n            self.dState = timestep * D.ar_numpy.sum(self.stage_values * self.tableau_intermediate[-1, 1:], axis=-1)\n            self.final_rhs = D.ar_numpy.copy(self.stage_values[..., -1])\n        else:\n            self.dState = timestep * D.ar_numpy.sum(self.stage_values * self.tableau_final[0, 1:], axis=-1)\n            self.final_rhs"))
